@@ -33,7 +33,7 @@ func init() {
 
 func c17(c *ctx) {
 	o := c.o
-	cases := [][]string{{"deadlock"}, {"orphan"}, {"hookvar"}, {"doubleterm"}, {"authrace"}}
+	cases := [][]string{{"deadlock"}, {"orphan"}, {"hookvar"}, {"doubleterm"}, {"authrace"}, {"admit"}, {"admitbypass"}}
 	nStress := 3
 	if c.thorough() {
 		nStress = 16
@@ -82,6 +82,10 @@ func c17sub(c *ctx) {
 		c17DoubleTerminate(c)
 	case "authrace":
 		c17AuthRace(c)
+	case "admit":
+		c17AdmitDuringTermination(c, false)
+	case "admitbypass":
+		c17AdmitDuringTermination(c, true)
 	case "stress":
 		c17Stress(c)
 	default:
